@@ -231,6 +231,15 @@ def _build_model(pid, extract_v, driver_ml):
     if os.path.exists(exe) and os.path.exists(stamp) and open(stamp).read() == digest:
         return exe
     with Lock('build'):
+        # bring every .vo the extraction file imports up to date first (a regenerated Gen fact that no pinned
+        # theorem depends on would otherwise leave a stale .vo behind: "inconsistent assumptions")
+        rcd, outd = run(['coqdep', '-Q', '.', 'H3V', os.path.relpath(extract_v, COQ)], cwd=COQ, timeout=120)
+        deps = sorted(set(re.findall(r'(\S+\.vo)\b', outd.split(':', 1)[1] if ':' in outd else '')))
+        deps = [x for x in deps if not x.startswith('/') and not x.endswith(os.path.basename(extract_v) + 'o')]
+        if deps:
+            rcm, outm = coq_make(deps)
+            if rcm != 0:
+                raise CheckError('model files do not build for %s:\n%s' % (pid, outm[-3000:]))
         rc, out = run(['coqc', '-Q', COQ, 'H3V', '-w', '-notation-overridden,-extraction-opaque-accessed,-extraction-reserved-identifier',
                        '-o', os.path.join(d, os.path.basename(extract_v) + 'o'), extract_v], cwd=d, timeout=600)
     if rc != 0:
